@@ -25,7 +25,7 @@ func init() {
 			"C07.3": "recursion and worklists driven by file addresses terminate: visited set (insert-only), decreasing level, or index increasing to a length",
 			"C07.5": "integer divisors on the read path are proven non-zero",
 		},
-	}, ruleC07Idx, ruleC07Alloc, ruleC07Div, ruleC07Rec)
+	}, func(c *Ctx, r *Result) { c.strictNarrow = true }, ruleC07Idx, ruleC07Alloc, ruleC07Div, ruleC07Rec, func(c *Ctx, r *Result) { c.strictNarrow = false })
 }
 
 // readerRoots: the read API.
